@@ -240,6 +240,21 @@ func (u *Unit) evalBuiltin(st *State, call *ast.CallExpr, name string) []Value {
 		u.setComp(st, "H:"+elemKey(d.Elem), nh)
 		return []Value{intV(n)}
 	}
+	if name == "clear" && len(call.Args) == 1 {
+		// clear(s) on a slice: every element of s[0:len(s)] becomes the zero value
+		d := u.eval(st, call.Args[0])
+		if d.K == KSlice {
+			h := u.heap(st, d.Elem)
+			nh := u.ctx.Fresh(u.symName("H:"+elemKey(d.Elem)), h.Sort)
+			q := boundVar("q?" + fmt.Sprint(u.nextBound()))
+			zero := u.zeroOf(d.Elem, true).Term
+			st.Assume(Forall([]*Term{q}, Ite(And(Le(d.Ptr, q), Lt(q, Add(d.Ptr, d.Len))),
+				Eq(Select(nh, q), zero), Eq(Select(nh, q), Select(h, q)))))
+			u.writeEvent(st, "H:"+elemKey(d.Elem))
+			u.setComp(st, "H:"+elemKey(d.Elem), nh)
+			return []Value{{K: KUnit}}
+		}
+	}
 	u.errorf("%s: unsupported builtin %s", u.pos(call), name)
 	return []Value{{K: KUnit}}
 }
@@ -353,6 +368,60 @@ func (u *Unit) evalExternal(st *State, call *ast.CallExpr) ([]Value, bool) {
 		u.defs = append(u.defs, Eq(k, ri))
 		kv := Value{K: KInt, T: types.Typ[types.Int64], Term: k}
 		return []Value{{K: KNum, T: x.T, Term: mk("to_real", SReal, k), Spec: x.Spec, Inner: &kv}}, true
+	case "math.IsInf", "math.IsNaN", "math.Signbit", "math.Abs", "math.Copysign":
+		// float64 classification / sign helpers: IEEE operators in precise mode, uninterpreted
+		// functions of the abstract sample sort in shape proofs
+		name := u.pkgFuncName(call.Fun)
+		x := u.eval(st, call.Args[0])
+		if x.Term == nil {
+			break
+		}
+		boolv := func(t *Term) []Value { return []Value{{K: KBool, T: types.Typ[types.Bool], Term: t}} }
+		numv := func(t *Term) []Value { return []Value{{K: KNum, T: x.T, Term: t}} }
+		switch {
+		case isFP(x.Term):
+			neg := mk("fp.isNegative", SBool, x.Term)
+			switch name {
+			case "math.IsNaN":
+				return boolv(mk("fp.isNaN", SBool, x.Term)), true
+			case "math.Signbit":
+				return boolv(neg), true
+			case "math.Abs":
+				return numv(mk("fp.abs", x.Term.Sort, x.Term)), true
+			case "math.IsInf":
+				sg := u.eval(st, call.Args[1])
+				inf := mk("fp.isInfinite", SBool, x.Term)
+				if sg.Term != nil && sg.Term.Sort == SInt {
+					return boolv(And(inf, Or(Eq(sg.Term, IntLit(0)), And(Gt(sg.Term, IntLit(0)), Not(neg)), And(Lt(sg.Term, IntLit(0)), neg)))), true
+				}
+			case "math.Copysign":
+				y := u.eval(st, call.Args[1])
+				if y.Term != nil && isFP(y.Term) {
+					ax := mk("fp.abs", x.Term.Sort, x.Term)
+					return numv(Ite(mk("fp.isNegative", SBool, y.Term), mk("fp.neg", x.Term.Sort, ax), ax)), true
+				}
+			}
+		case isAbs(x.Term):
+			sn := x.Term.Sort[2:]
+			switch name {
+			case "math.IsNaN", "math.Signbit":
+				return boolv(u.ctx.App("fn_"+name[5:]+"_"+sn, SBool, x.Term)), true
+			case "math.Abs":
+				return numv(u.ctx.App("fn_Abs_"+sn, x.Term.Sort, x.Term)), true
+			case "math.IsInf":
+				sg := u.eval(st, call.Args[1])
+				if sg.Term != nil && sg.Term.Sort == SInt {
+					return boolv(u.ctx.App("fn_IsInf_"+sn, SBool, x.Term, sg.Term)), true
+				}
+			case "math.Copysign":
+				y := u.eval(st, call.Args[1])
+				if y.Term != nil && y.Term.Sort == x.Term.Sort {
+					return numv(u.ctx.App("fn_Copysign_"+sn, x.Term.Sort, x.Term, y.Term)), true
+				}
+			}
+		}
+		u.errorf("%s: %s on unsupported operands (mode %s)", u.pos(call), name, u.mode)
+		return []Value{x}, true
 	case "fmt.Sprintf", "fmt.Sprint", "fmt.Sprintln", "fmt.Errorf", "errors.New", "strconv.Itoa":
 		// string building: allocates, result opaque
 		for _, a := range call.Args {
@@ -363,6 +432,21 @@ func (u *Unit) evalExternal(st *State, call *ast.CallExpr) ([]Value, bool) {
 		}
 		u.bumpAllocs(st, 1)
 		return []Value{{K: KString, T: types.Typ[types.String], Str: "formatted"}}, true
+	case "encoding/binary.Size":
+		// documented behaviour: byte size of a fixed-size value; -1 for the platform-sized kinds
+		// int, uint, uintptr (and for anything that is not fixed-size data). The boxing of the
+		// argument allocates.
+		t := u.conc(u.staticType(call.Args[0]))
+		u.bumpAllocs(st, 1)
+		if b, ok := t.Underlying().(*types.Basic); ok && b.Info()&(types.IsInteger|types.IsFloat) != 0 {
+			switch b.Kind() {
+			case types.Int, types.Uint, types.Uintptr:
+				return []Value{intV(IntLit(-1))}, true
+			}
+			return []Value{intV(IntLit(u.prog.Sizes.Sizeof(b)))}, true
+		}
+		u.errorf("%s: binary.Size on unsupported operand type %s", u.pos(call), t)
+		return []Value{intV(IntLit(-1))}, true
 	case "unsafe.Sizeof":
 		t := u.conc(u.staticType(call.Args[0]))
 		sz := u.prog.Sizes.Sizeof(t.Underlying())
